@@ -176,6 +176,12 @@ class FakeServer:
             raise TypeError("WRONGTYPE")
         return v
 
+    def getdel(self, k):
+        v = self.get(k)
+        if v is not None:
+            self.delete(k)
+        return v
+
     def set(self, k, v, exat=None, ex=None):
         k = s(k)
         self.kv[k] = b(v)
